@@ -57,6 +57,24 @@ class NotInlinable(Exception):
     pass
 
 
+def clone(n):
+    """structural copy of an AST (sub)tree; unlike copy.deepcopy it does not follow the `_parent` back links the model attaches to nodes"""
+    if isinstance(n, list):
+        return [clone(x) for x in n]
+    if isinstance(n, ast.AST):
+        new = type(n)()
+        for f in n._fields:
+            if hasattr(n, f):
+                setattr(new, f, clone(getattr(n, f)))
+        for a in ("lineno", "col_offset", "end_lineno", "end_col_offset"):
+            if hasattr(n, a):
+                setattr(new, a, getattr(n, a))
+        if getattr(n, "_caller_name", False):
+            new._caller_name = True  # type: ignore[attr-defined]
+        return new
+    return n
+
+
 def _own(fn: ast.AST):
     """nodes of a function body without nested function / class scopes (comprehensions are included)"""
     stack = list(ast.iter_child_nodes(fn))
@@ -106,10 +124,26 @@ def _params(fn: ast.FunctionDef) -> List[ast.arg]:
     return fn.args.posonlyargs + fn.args.args + fn.args.kwonlyargs
 
 
+def _internal_name(g) -> bool:
+    """private by name, or a function of an internal module (a `_x` component in its path) that the module does not export"""
+    nm = g.node.name
+    if nm.startswith("__"):
+        return False
+    if nm.startswith("_"):
+        return True
+    if g.cls is None and any(part.startswith("_") for part in g.module.name.split(".")[1:]):
+        exported = set()
+        for st in g.module.tree.body:
+            if isinstance(st, ast.Assign) and any(isinstance(t, ast.Name) and t.id == "__all__" for t in st.targets) and isinstance(st.value, (ast.List, ast.Tuple)):
+                exported |= {e.value for e in st.value.elts if isinstance(e, ast.Constant)}
+        return bool(exported) and nm not in exported
+    return False
+
+
 def eligible(g, vocab: Set[str], force: Set[str] = frozenset()) -> bool:
     fn = g.node
     nm = fn.name
-    if (not nm.startswith("_") or nm.startswith("__") or nm in vocab) and nm not in force:
+    if (not _internal_name(g) or nm in vocab) and nm not in force:
         return False
     if isinstance(fn, ast.AsyncFunctionDef) or fn.args.vararg or fn.args.kwarg:
         return False
@@ -140,6 +174,10 @@ def _is_simple(e: ast.AST) -> bool:
         return True
     if isinstance(e, ast.Attribute):
         return _is_simple(e.value)
+    if isinstance(e, (ast.Tuple, ast.List)):
+        return all(_is_simple(x) for x in e.elts)  # an argument pack written out at the call site
+    if isinstance(e, ast.Dict):
+        return all((k is None or isinstance(k, ast.Constant)) and _is_simple(v) for k, v in zip(e.keys, e.values))
     return False
 
 
@@ -195,9 +233,27 @@ class _Subst(ast.NodeTransformer):
         if getattr(node, "_caller_name", False):
             return node
         if node.id in self.expr_map and isinstance(node.ctx, ast.Load):
-            return copy.deepcopy(self.expr_map[node.id])
+            return clone(self.expr_map[node.id])
         if node.id in self.rename:
             return ast.copy_location(ast.Name(id=self.rename[node.id], ctx=node.ctx), node)
+        return node
+
+    def visit_Call(self, node: ast.Call):
+        self.generic_visit(node)
+        # f(*(<a>, <b>)) -> f(<a>, <b>) ;  f(**{"k": v}) -> f(k=v): what a literal argument pack turns into once it is substituted for a parameter
+        args = []
+        for a_ in node.args:
+            if isinstance(a_, ast.Starred) and isinstance(a_.value, (ast.Tuple, ast.List)) and not any(isinstance(e_, ast.Starred) for e_ in a_.value.elts):
+                args.extend(a_.value.elts)
+            else:
+                args.append(a_)
+        kws = []
+        for k_ in node.keywords:
+            if k_.arg is None and isinstance(k_.value, ast.Dict) and all(isinstance(kk, ast.Constant) and isinstance(kk.value, str) for kk in k_.value.keys):
+                kws.extend(ast.keyword(arg=kk.value, value=vv) for kk, vv in zip(k_.value.keys, k_.value.values))
+            else:
+                kws.append(k_)
+        node.args, node.keywords = args, kws
         return node
 
     def visit_ExceptHandler(self, node):
@@ -228,27 +284,12 @@ def _eliminate_returns(stmts: List[ast.stmt], ret: Optional[str], in_loop: bool 
             out.append(st)
             continue
         if isinstance(st, ast.If):
-            b1, f1 = _eliminate_returns(st.body, ret, in_loop)
-            b2, f2 = _eliminate_returns(st.orelse, ret, in_loop)
-            if f1 and f2:
-                out.append(ast.If(test=st.test, body=b1 or [ast.Pass()], orelse=b2))
-                continue
-            if in_loop:
-                # inside the search loop: a returning branch ends with break; the other branch simply continues with the rest of the body
-                r, fr = _eliminate_returns(rest, ret, in_loop)
-                if f1:
-                    b1 = b1 + r
-                if f2:
-                    b2 = b2 + r
-                out.append(ast.If(test=st.test, body=b1 or [ast.Pass()], orelse=b2))
-                return out, (f1 or f2) and fr
-            r, fr = _eliminate_returns(rest, ret, in_loop)
-            if f1:
-                b1 = b1 + r
-            if f2:
-                b2 = b2 + r
+            # some path through this `if` returns: whatever follows it runs only on the paths that fall out of it -- move the continuation into
+            # both arms (duplicating it) and eliminate there; exact for every nesting of partial returns
+            b1, f1 = _eliminate_returns(list(st.body) + clone(rest), ret, in_loop)
+            b2, f2 = _eliminate_returns(list(st.orelse) + rest, ret, in_loop)
             out.append(ast.If(test=st.test, body=b1 or [ast.Pass()], orelse=b2))
-            return out, (f1 or f2) and fr
+            return out, f1 or f2
         if isinstance(st, (ast.For, ast.While)) and not in_loop:
             if st.orelse or any(isinstance(x, ast.Break) for x in ast.walk(st)):
                 raise NotInlinable("return inside a loop that also breaks / has an else clause")
@@ -282,6 +323,7 @@ class Inliner:
         self.vocab = rule_vocab() - (force or set())
         self.force = force or set()
         self.log: List[str] = []
+        self.edges: Set[Tuple[str, str]] = set()
 
     # -- resolution ------------------------------------------------------------------------------------------------------------
     def resolve(self, fi, call: ast.Call):
@@ -290,14 +332,14 @@ class Inliner:
         g = None
         implicit = None
         if isinstance(f, ast.Name):
-            if (not f.id.startswith("_") or f.id in self.vocab) and f.id not in self.force:
+            if (f.id.startswith("__") or f.id in self.vocab) and f.id not in self.force:
                 return None
             r = self.p.module_symbol(fi.module, f.id)
             g = r if hasattr(r, "node") and hasattr(r, "qualname") and not hasattr(r, "methods") else None
             if g is not None and g.cls is not None:
                 g = None
         elif isinstance(f, ast.Attribute):
-            if (not f.attr.startswith("_") or f.attr.startswith("__") or f.attr in self.vocab) and f.attr not in self.force:
+            if (f.attr.startswith("__") or f.attr in self.vocab) and f.attr not in self.force:
                 return None
             if isinstance(f.value, ast.Name) and f.value.id in ("self", "cls") and fi.cls is not None:
                 g = fi.cls.lookup_method(f.attr)
@@ -371,10 +413,11 @@ class Inliner:
             self._import_globals(g, fi, [e], set(bind))
         except NotInlinable:
             return None
-        new = _Subst(bind, {}).visit(copy.deepcopy(e))
+        new = _Subst(bind, {}).visit(clone(e))
         for x in ast.walk(new):
             ast.copy_location(x, call)
         self.log.append(f"{fi.short}: inlined expression helper {g.short}")
+        self.edges.add((fi.qualname, g.qualname))
         return new
 
     @staticmethod
@@ -407,7 +450,7 @@ class Inliner:
         pre = f"_il{k}_"
         try:
             bind = _bind(g.node, call, implicit)
-            body = copy.deepcopy(_body_wo_doc(g.node))
+            body = clone(_body_wo_doc(g.node))
             stored, _ = _stored_names(g.node)
             pnames = [a.arg for a in _params(g.node)]
             returns = [x for b_ in body for x in ast.walk(b_) if isinstance(x, ast.Return)]
@@ -440,7 +483,7 @@ class Inliner:
                     rename[pnm] = arg.id  # x = helper(x, ...): the helper re-binds its parameter and hands it back -- the parameter *is* x
                 else:
                     rename[pnm] = pre + pnm
-                    prologue.append(ast.Assign(targets=[ast.Name(id=pre + pnm, ctx=ast.Store())], value=copy.deepcopy(arg), type_comment=None))
+                    prologue.append(ast.Assign(targets=[ast.Name(id=pre + pnm, ctx=ast.Store())], value=clone(arg), type_comment=None))
             impure = [pnm for pnm in pnames if pnm not in expr_map and not _is_pure(bind[pnm])]
             if len(impure) > 1:
                 raise NotInlinable("several impure arguments")
@@ -527,6 +570,7 @@ class Inliner:
             for x in ast.walk(s_):
                 ast.copy_location(x, st)
         self.log.append(f"{fi.short}: inlined helper {g.short}")
+        self.edges.add((fi.qualname, g.qualname))
         return out
 
     # -- driver ------------------------------------------------------------------------------------------------------------------
@@ -594,20 +638,32 @@ class Inliner:
 
 
 def inline_helpers(project) -> List[str]:
-    return Inliner(project).run()
+    inl = Inliner(project)
+    log = inl.run()
+    project.inlined_edges = inl.edges  # (caller, helper) pairs whose call was replaced by the helper's body
+    # helpers every call of which was replaced: their own bodies add nothing a rule has not already seen in the callers
+    helpers = {h for _, h in inl.edges}
+    remaining: Set[str] = set()
+    for f in project.functions.values():
+        for c in _own(f.node):
+            if isinstance(c, (ast.Name, ast.Attribute)) and isinstance(getattr(c, "ctx", None), ast.Load):
+                nm = c.id if isinstance(c, ast.Name) else c.attr
+                remaining.add(nm)
+    project.absorbed = {h for h in helpers if h.rsplit(".", 1)[-1] not in remaining}
+    return log
 
 
 def force_inline(project, fi, callee_names: Set[str]):
     """A deep copy of `fi` in which calls to the named repo functions are inlined whatever their names (for rules whose obligation may be
     discharged on either side of one specific call).  Returns a FunctionInfo-like shallow copy with the new node; the project is untouched."""
     import copy as _copy
-    clone = _copy.copy(fi)
-    clone.node = _copy.deepcopy(fi.node)
-    for n in ast.walk(clone.node):
+    twin = _copy.copy(fi)
+    twin.node = clone(fi.node)
+    for n in ast.walk(twin.node):
         for ch in ast.iter_child_nodes(n):
             ch._parent = n  # type: ignore[attr-defined]
     inl = Inliner(project, force=set(callee_names))
     for _ in range(2):
-        if not inl._process(clone):
+        if not inl._process(twin):
             break
-    return clone
+    return twin
